@@ -147,8 +147,8 @@ Lemma convert_not_loop b p : match convert b p with Some c => not_loop c | None 
 Proof.
   induction p using particle_ind'.
   - cbn [convert]. apply expand_not_loop. exact I.
-  - cbn [convert]. destruct (nest CChoice (any_nodes c)) eqn:E; auto. apply expand_not_loop.
-    eapply nest_not_loop; [|apply any_nodes_not_loop|exact E]. intros; exact I.
+  - cbn [convert]. destruct n as [[|n]|]; auto; (destruct (nest CChoice (any_nodes c)) eqn:E; auto; apply expand_not_loop;
+    eapply nest_not_loop; [|apply any_nodes_not_loop|exact E]; intros; exact I).
   - rewrite convert_Seq. destruct (nest CSeq _) eqn:E; auto. apply expand_not_loop.
     eapply nest_not_loop; [| |exact E]; [intros; exact I|]. apply filter_some_Forall.
     apply Forall_forall. intros o Ho. apply in_map_iff in Ho. destruct Ho as (q & <- & Hq).
@@ -163,10 +163,10 @@ Lemma has_node_convert b p : has_node p = true -> convert b p <> None.
 Proof.
   induction p using particle_ind'; cbn [has_node].
   - intros _. cbn [convert]. discriminate.
-  - intros _. cbn [convert]. assert (any_nodes c <> []).
+  - intros Hn. cbn [convert]. assert (any_nodes c <> []).
     { destruct c as [| |l]; cbn [any_nodes]; try discriminate. destruct l; [discriminate|].
       cbn [dedup mem_uri existsb]. discriminate. }
-    destruct (any_nodes c); [congruence|]. cbn [nest]. discriminate.
+    destruct n as [[|n]|]; [discriminate Hn| |]; (destruct (any_nodes c); [congruence|]; cbn [nest]; discriminate).
   - rewrite has_node_group, convert_Seq. intros Hex. apply existsb_exists in Hex. destruct Hex as (q & Hq & Hn).
     assert (filter_some (map (convert b) ps) <> []).
     { clear m n. induction ps as [|y ps IH]; [destruct Hq|]. inversion H; subst. cbn [map filter_some].
@@ -218,7 +218,12 @@ Proof.
     assert (Hne : any_nodes c <> []).
     { destruct c as [| |l]; cbn [any_nodes]; try discriminate. destruct l; [congruence|].
       cbn [dedup mem_uri existsb]. discriminate. }
-    specialize (Hn Hne). destruct (nest CChoice (any_nodes c)) eqn:E.
+    specialize (Hn Hne).
+    assert (Ec : match n with Some 0 => None | _ => match nest CChoice (any_nodes c) with
+                 | Some t => Some (expand t m n b) | None => None end end =
+                 match nest CChoice (any_nodes c) with Some t => Some (expand t m n b) | None => None end).
+    { destruct n as [[|n]|]; auto. congruence. }
+    rewrite Ec. clear Ec. destruct (nest CChoice (any_nodes c)) eqn:E.
     + cbn [Lco] in *. eapply leq_trans; [apply expand_correct; auto|].
       { eapply nest_not_loop; [|apply any_nodes_not_loop|exact E]. intros; exact I. }
       apply l_rep_ext. eapply leq_trans; [exact Hn|]. apply Lc_any_nodes; auto.
